@@ -37,7 +37,14 @@ pub struct RHistory {
     pub final_strat: Strat,
     /// bit 0: clone fragment, bit 1: serde fragment
     pub fragsel: u8,
+    /// 0: whole menu; 1: small alignments only, plus over-aligned zero-size types (so that a
+    /// zero-size datum is the most aligned of the definition)
+    #[serde(default)]
+    pub profile: u8,
 }
+
+/// Menu of profile 1.
+pub const LOW_ALIGN: [usize; 14] = [0, 1, 5, 11, 24, 12, 30, 23, 2, 14, 13, 14, 13, 24];
 
 pub const NAME_POOL: [&str; 12] =
     ["alpha", "beta", "gamma", "delta", "eps", "zeta", "count2", "is_ok", "the_value", "x_1", "kappa_mu", "n0"];
@@ -80,13 +87,20 @@ pub fn block(first: bool) -> impl Strategy<Value = Vec<RReq>> {
 }
 
 pub fn rhistory() -> impl Strategy<Value = RHistory> {
-    (block(true), prop_oneof![1 => Just(vec![]).boxed(), 9 => prop::collection::vec(block(false), 1..6).boxed()], strat_strategy(), 0u8..4).prop_map(|(first, rest, final_strat, fragsel)| {
-        let mut reqs = first;
-        for b in rest {
-            reqs.extend(b);
-        }
-        RHistory { reqs, final_strat, fragsel }
-    })
+    (
+        block(true),
+        prop_oneof![1 => Just(vec![]).boxed(), 9 => prop::collection::vec(block(false), 1..6).boxed()],
+        strat_strategy(),
+        0u8..4,
+        prop_oneof![5 => Just(0u8), 1 => Just(1u8)],
+    )
+        .prop_map(|(first, rest, final_strat, fragsel, profile)| {
+            let mut reqs = first;
+            for b in rest {
+                reqs.extend(b);
+            }
+            RHistory { reqs, final_strat, fragsel, profile }
+        })
 }
 
 pub struct Built {
@@ -214,7 +228,7 @@ pub fn build_ext(h: &RHistory, ext: &Ext) -> Built {
                 if b.get_current_data().count() >= MAX_FIELDS {
                     continue;
                 }
-                let mut idx = WEIGHTED[pick(*m, WEIGHTED.len())];
+                let mut idx = if h.profile == 1 { LOW_ALIGN[pick(*m, LOW_ALIGN.len())] } else { WEIGHTED[pick(*m, WEIGHTED.len())] };
                 if h.fragsel & 2 == 2 && !MENU[idx].serde_ok {
                     idx = 3;
                 }
@@ -467,6 +481,7 @@ impl<const CAP: usize> vdrive::RecGlue for CappedRecord{v}<CAP> {{
         }}
     }}
     fn with_stack(&mut self, f: &mut dyn FnMut(&mut dyn vdrive::RecGlue)) {{ vdrive::via_stack(self, f) }}
+    fn with_min_aligned(&mut self, f: &mut dyn FnMut(&mut dyn vdrive::RecGlue)) {{ vdrive::via_min_aligned(self, f) }}
     fn rebox(self: Box<Self>) -> Box<dyn vdrive::RecGlue> {{ let r: Self = *self; Box::new(r) }}
     fn unpack_dyn(self: Box<Self>) -> vdrive::ctx::Outs {{
         let {unpack_pat} = (*self).unpack();
